@@ -124,6 +124,17 @@ theorem stepO_acct (s s' : St) (h : Inv s) (ha : Acct s) (hs : stepO s = some s'
     · simp at hs; subst hs; exact acct_same s _ rfl rfl rfl rfl rfl ha
     · simp at hs
   case stuckL => simp at hs
+  case assertFail => simp at hs
+  case cl3 =>
+    simp only [releaseO, hcfg, code_unlockFence, if_true] at hs
+    split at hs
+    · simp at hs; subst hs; exact acct_same s _ rfl rfl rfl rfl rfl ha
+    · simp at hs
+  case pux e t =>
+    simp only [releaseO, hcfg, code_unlockFence, if_true] at hs
+    split at hs
+    · simp at hs; subst hs; exact acct_same s _ rfl rfl rfl rfl rfl ha
+    · simp at hs
   case pt9 =>
     simp only [releaseO, hcfg, code_unlockFence, if_true] at hs
     split at hs
@@ -163,15 +174,49 @@ theorem stepT_acct (s s' : St) (p : Pid) (h : Inv s) (ha : Acct s) (hs : stepT s
     split at hs
     · simp at hs; subst hs; exact acct_same s _ rfl rfl rfl rfl rfl ha
     · simp at hs
+  case wkd b r => simp at hs
+  case wk4u r =>
+    simp only [releaseT, hcfg, code_unlockFence, if_true] at hs
+    split at hs
+    · simp at hs; subst hs
+      exact acct_thiefRet s _ r rfl (h.wk4u p r hpc).1 rfl rfl rfl rfl ha
+    · simp at hs
+  case wk6 =>
+    simp only [releaseT, hcfg, code_unlockFence, if_true] at hs
+    split at hs
+    · simp at hs; subst hs; exact acct_same s _ rfl rfl rfl rfl rfl ha
+    · simp at hs
+  case vu =>
+    simp only [releaseT, hcfg, code_unlockFence, if_true] at hs
+    split at hs
+    · simp at hs; subst hs; exact acct_same s _ rfl rfl rfl rfl rfl ha
+    · simp at hs
   all_goals (first
     | (simp at hs; subst hs; exact acct_same s _ rfl rfl rfl rfl rfl ha)
     | (split at hs <;> simp at hs <;> subst hs <;> first | exact ha | exact acct_same s _ rfl rfl rfl rfl rfl ha)
     | (split at hs <;> (try split at hs) <;> simp at hs <;> subst hs <;> first | exact ha | exact acct_same s _ rfl rfl rfl rfl rfl ha))
 
+theorem stepD_acct (s s' : St) (p : Pid) (a : Bool) (h : Inv s) (ha : Acct s) (hs : stepD s p a = some s') :
+    Acct s' := by
+  simp only [stepD] at hs
+  split at hs
+  · rename_i b r hpc
+    cases a
+    · simp at hs; subst hs; exact acct_same s _ rfl rfl rfl rfl rfl ha
+    · simp only [if_true] at hs
+      split at hs
+      · rename_i x A' hA
+        simp at hs; subst hs
+        have hl := (h.lockT p).2 (by simp [hpc, thiefLocked])
+        exact acct_takeLP s _ x A' hA rfl (thief_flT_none s h p hl (by simp [hpc, thiefFlight])) rfl rfl rfl rfl ha
+      · simp at hs; subst hs; exact acct_same s _ rfl rfl rfl rfl rfl ha
+  · simp at hs
+
 theorem step_acct (s : St) (l : Lbl) (s' : St) (h : Inv s) (ha : Acct s) (hs : step s l = some s') : Acct s' := by
   cases l <;> simp only [step] at hs
   case o => exact stepO_acct s s' h ha hs
   case t p => exact stepT_acct s s' p h ha hs
+  case tDecide p a => exact stepD_acct s s' p a h ha hs
   case flushO =>
     split at hs
     · rename_i st rest hb
@@ -254,9 +299,10 @@ theorem owner_not_resetting (s : St) (h : Inv s) (p : Pid) (hl : s.lock = .thief
 theorem ghost_branches_unreachable (s : St) (h : Inv s) :
     (∀ t, s.opc = .po2 t → viewBase s.bufO s.base + 1 < t → s.A.getLast? ≠ none) ∧
     (∀ t, s.opc = .po4 t → viewBase s.bufO s.base ≤ t → s.A.getLast? ≠ none) ∧
-    (∀ p b, s.tpc p = .tk2 b → b < viewTop (s.bufT p) s.top → s.A ≠ []) := by
+    (∀ p b, s.tpc p = .tk2 b → b < viewTop (s.bufT p) s.top → s.A ≠ []) ∧
+    (∀ p b r, s.tpc p = .wkd b r → s.A ≠ []) := by
   have hlen := h.len
-  refine ⟨?_, ?_, ?_⟩
+  refine ⟨?_, ?_, ?_, fun p b r hpc => (h.wkd p b r hpc).2.2.1⟩
   · intro t hpc hlt
     have e := h.po2 t hpc
     have e2 := h.lbase (by simp [hpc, resetting])
@@ -278,20 +324,26 @@ theorem ghost_branches_unreachable (s : St) (h : Inv s) :
     rw [hA] at hlen; simp at hlen
     omega
 
+set_option maxHeartbeats 1000000 in
 /-- a pending inserting `base` store of the owner belongs to put just before its unlock, targets the
-    slot below the logical base, and the slot store it is ordered after (FIFO) carries the same
-    element: when it drains, the slot it exposes holds the element inserted -/
+    slot below the logical base as the owner sees it (`lb + sh`: `sh ≠ 0` only while the shift entry
+    of a re-centring is still buffered in front of it), and the slot store it is ordered after
+    (FIFO) carries the same element: when it drains, the slot it exposes holds the element inserted -/
 theorem owner_baseI (s : St) (h : Inv s) (v : Int) (e : Elem) (hm : Sto.baseI v e ∈ s.bufO) :
-    s.opc = .pt9 ∧ s.lock = .owner ∧ v = s.lb - 1 ∧ viewPtr s.bufO s.ptr v = some e := by
+    s.opc = .pt9 ∧ s.lock = .owner ∧ v = s.lb + s.sh - 1 ∧ viewPtr s.bufO s.ptr v = some e := by
   cases hpc : s.opc
   case pt9 =>
     have hl := h.lockO.2 (by simp [hpc, ownerLocked])
-    rcases (h.pt9 hpc).2 with ⟨e', h1⟩ | ⟨e', h1, h2⟩ | h1
-    · rw [h1] at hm ⊢; simp at hm; obtain ⟨rfl, rfl⟩ := hm; simp [viewPtr, hl]
-    · rw [h1] at hm ⊢; simp at hm; obtain ⟨rfl, rfl⟩ := hm; simp [viewPtr, hl, h2]
-    · rw [h1] at hm; simp at hm
+    rcases h.pt9 hpc with ⟨e', hp⟩ | ⟨hsh, _, _, hI⟩
+    · rcases hp with h1 | ⟨h1, h2⟩ | ⟨h1, h2, h3⟩
+      all_goals (rw [h1] at hm ⊢; simp at hm; obtain ⟨rfl, rfl⟩ := hm; simp [viewPtr, hl])
+    · rw [hsh]; simp only [Int.add_zero]
+      rcases hI with ⟨e', h1⟩ | ⟨e', h1, h2⟩ | h1
+      · rw [h1] at hm ⊢; simp at hm; obtain ⟨rfl, rfl⟩ := hm; simp [viewPtr, hl]
+      · rw [h1] at hm ⊢; simp at hm; obtain ⟨rfl, rfl⟩ := hm; simp [viewPtr, hl, h2]
+      · rw [h1] at hm; simp at hm
   all_goals (exfalso; cases h; simp only [hpc, ownerLocked, carry, resetting, ownerFlight] at *)
-  all_goals grind [CarryShape, Pu2Shape, PofShape, Po6Shape, Po8Shape, Po9Shape, InsShape]
+  all_goals tso_absurd
 
 /-- the same for a passer: its pending inserting `base` store belongs to trypass just before its unlock -/
 theorem thief_baseI (s : St) (h : Inv s) (p : Pid) (v : Int) (e : Elem) (hm : Sto.baseI v e ∈ s.bufT p) :
@@ -302,12 +354,13 @@ theorem thief_baseI (s : St) (h : Inv s) (p : Pid) (v : Int) (e : Elem) (hm : St
     obtain ⟨hl, hcase⟩ := thief_buf_shape s h p st rest hb
     rw [hb] at hm
     rcases hcase with ⟨b, _, rfl, rfl, _⟩ | ⟨_, rfl, rfl, _⟩ | ⟨e', _, rfl, rfl⟩ |
-      ⟨e', ok, hpc, rfl, rfl⟩ | ⟨e', ok, hpc, rfl, rfl, hp⟩
+      ⟨e', ok, hpc, rfl, rfl⟩ | ⟨e', ok, hpc, rfl, rfl, hp⟩ | ⟨x, rfl, hc⟩
     · simp at hm
     · simp at hm
     · simp at hm
     · simp at hm; obtain ⟨rfl, rfl⟩ := hm; exact ⟨⟨ok, hpc⟩, hl, rfl, by simp [viewPtr]⟩
     · simp at hm; obtain ⟨rfl, rfl⟩ := hm; exact ⟨⟨ok, hpc⟩, hl, rfl, by simp [viewPtr, hp]⟩
+    · rcases hc with ⟨r, _, rfl⟩ | ⟨b, _, rfl⟩ | ⟨_, rfl, _⟩ <;> simp at hm
 
 /-- the overflow tests of put and trypass (`base == 0`) read the logical base -/
 theorem base_tests_logical (s : St) (h : Inv s) :
@@ -327,5 +380,92 @@ theorem base_tests_logical (s : St) (h : Inv s) :
     have htr := h.trF p hl (by simp [hpc, notTrans])
     have := h.lbase (thief_not_resetting s h p hl)
     rw [h.tbufE p (by simp [hpc, mayBuf]), viewBase_nil, this]; simp [htr]
+
+/-- the two `abort()`s ("Runqueue overflow") are reached only on a full deque, holding the lock with
+    an empty buffer -/
+theorem stuck_only_when_full (s : St) (h : Inv s) (hpc : s.opc = .stuck ∨ s.opc = .stuckL) :
+    (s.A.length : Int) = s.size ∧ s.lb = 0 ∧ s.lt = s.size ∧ s.top = s.size ∧ s.base = 0 ∧
+    s.lock = .owner ∧ s.bufO = [] := by
+  have hlen := h.len
+  have htr : s.lock = .owner → s.tr = false := by
+    intro hl
+    cases ht : s.tr with
+    | false => rfl
+    | true => obtain ⟨q, hq⟩ := h.trn ht; rw [hl] at hq; cases hq
+  rcases hpc with hpc | hpc
+  · obtain ⟨h1, h2, h3, h4⟩ := h.stuck hpc
+    have hl := h.lockO.2 (by simp [hpc, ownerLocked])
+    have hb := h.lbase (by simp [hpc, resetting])
+    simp [htr hl] at hb
+    exact ⟨by omega, h4, h3, by omega, by omega, hl, h1⟩
+  · obtain ⟨h1, h2, h3, h4⟩ := h.stuckL hpc
+    have hl := h.lockO.2 (by simp [hpc, ownerLocked])
+    have hb := h.lbase (by simp [hpc, resetting])
+    simp [htr hl] at hb
+    exact ⟨by omega, h3, h4, by omega, by omega, hl, h1⟩
+
+/-- the overflow tests of the two re-centring paths read the logical values: push's `base == 0` at
+    logical top `size`, put's `top == size` at logical base 0 -/
+theorem overflow_tests_logical (s : St) (h : Inv s) :
+    (∀ e, s.opc = .pub e → viewBase s.bufO s.base = s.lb ∧ s.lt = s.size) ∧
+    (∀ e, s.opc = .pt2 e → viewTop s.bufO s.top = s.lt ∧ s.lb = 0) := by
+  refine ⟨?_, ?_⟩
+  · intro e hpc
+    obtain ⟨h1, h2, h3⟩ := h.pub e hpc
+    have hl := h.lockO.2 (by simp [hpc, ownerLocked])
+    have htr : s.tr = false := by
+      cases ht : s.tr with
+      | false => rfl
+      | true => obtain ⟨q, hq⟩ := h.trn ht; rw [hl] at hq; cases hq
+    have := h.lbase (by simp [hpc, resetting])
+    rw [h1, viewBase_nil, this]; simp [htr, h3]
+  · intro e hpc
+    obtain ⟨h1, h2, h3⟩ := h.pt2 e hpc
+    rw [h1, viewTop_nil]; exact ⟨h2, h3⟩
+
+/-- clear's assertion `top == base` holds exactly when the deque is empty (it reads the logical values) -/
+theorem cl1_assert_iff (s : St) (h : Inv s) (hpc : s.opc = .cl1) :
+    (viewTop s.bufO s.top = viewBase s.bufO s.base ↔ s.A = []) ∧
+    viewTop s.bufO s.top = s.lt ∧ viewBase s.bufO s.base = s.lb := by
+  obtain ⟨h1, h2⟩ := h.cl1 hpc
+  have hl := h.lockO.2 (by simp [hpc, ownerLocked])
+  have htr : s.tr = false := by
+    cases ht : s.tr with
+    | false => rfl
+    | true => obtain ⟨q, hq⟩ := h.trn ht; rw [hl] at hq; cases hq
+  have hb := h.lbase (by simp [hpc, resetting])
+  simp [htr] at hb
+  have hlen := h.len
+  rw [h1, viewTop_nil, viewBase_nil]
+  refine ⟨⟨fun he => ?_, fun hA => ?_⟩, h2, hb⟩
+  · have : s.A.length = 0 := by omega
+    exact List.eq_nil_of_length_eq_zero this
+  · rw [hA] at hlen; simp at hlen; omega
+
+/-- **a declined steal leaves the candidate available** (TSO analogue of `decline_spec`): while the
+    decision callback of `myth_wsapi_runqueue_take` is asked, the candidate is the head of the deque;
+    if it declines, then after the roll-back store of `base`, its drain and the unlock, the deque,
+    the slots, `top`, and the returned / inserted lists are exactly as before, `base` is back at the
+    logical base, the lock is free and the participant's buffer is empty -/
+theorem decline_spec (s : St) (h : Inv s) (p : Pid) (b : Int) (r : Option Elem) (hpc : s.tpc p = .wkd b r) :
+    r = s.A.head? ∧ s.A ≠ [] ∧
+    ∃ s1 s2 s3 s4, step s (.tDecide p false) = some s1 ∧ step s1 (.t p) = some s2 ∧
+      step s2 (.flushT p) = some s3 ∧ step s3 (.t p) = some s4 ∧
+      s4.A = s.A ∧ s4.retd = s.retd ∧ s4.ins = s.ins ∧ s4.ptr = s.ptr ∧ s4.top = s.top ∧
+      s4.base = s4.lb ∧ s4.lb = s.lb ∧ s4.lock = .free ∧ s4.tpc p = .idle ∧ s4.bufT p = [] := by
+  obtain ⟨hlb, htr, hne, hr, _⟩ := h.wkd p b r hpc
+  have hbuf := h.tbufE p (by simp [hpc, mayBuf])
+  have hcfg := h.cfg
+  refine ⟨hr, hne, ?_⟩
+  let s1 : St := { s with tpc := upd s.tpc p (.wk5 b) }
+  let s2 : St := { s1 with bufT := upd s1.bufT p [.base b], tpc := upd s1.tpc p .wk6 }
+  let s3 : St := { s2 with bufT := upd s2.bufT p [], base := b, tr := decide (b = s.lb + 1) }
+  let s4 : St := { s3 with lock := .free, tpc := upd s3.tpc p .idle }
+  refine ⟨s1, s2, s3, s4, ?_, ?_, ?_, ?_, ?_⟩
+  · simp [step, stepD, hpc, s1]
+  · simp [step, stepT, s1, s2, hbuf]
+  · simp [step, s2, s1, applySto, s3]
+  · simp [step, stepT, s3, s2, s1, releaseT, hcfg, s4]
+  · simp [s1, s2, s3, s4, hlb]
 
 end MythVerif.WsqTso
